@@ -1,5 +1,6 @@
 import HappyModel.Proto
 import HappyModel.C14.Spec
+import HappyModel.C14.DriverStore
 /-! Line-protocol driver for C14 (other side: `hv/props/c14.py`). -/
 namespace HappyModel.C14.Driver
 open HappyModel.Proto HappyModel.C14
@@ -112,6 +113,10 @@ def handle (hdr : List String) (body : List String) : List String :=
   match hdr with
   | ["lsm"] => runLsm body
   | ["judge-lsm"] => judgeLsm body
+  | ["store"] => DriverStore.runStore body
+  | ["judge-store"] => DriverStore.judgeStoreMode body
+  | ["txn"] => DriverStore.runTxn body
+  | ["judge-txn"] => DriverStore.judgeTxnMode body
   | _ => ["bad-mode"]
 
 end HappyModel.C14.Driver
